@@ -139,6 +139,7 @@ def _split_int(I, v, n):
 # ------------------------------------------------------------------ dict
 def _key(I, d, k):
     """normalise a key; a symbolic atom is concretised against the known keys"""
+    k = I.resolve(k)
     if isinstance(k, SAtom):
         for cand in list(d.d.keys()):
             if isinstance(cand, str):
@@ -547,7 +548,12 @@ def install_builtins(I):
     bi["zip"] = B("zip", lambda I, *xs: [tuple(t) for t in zip(*[iterate(I, x) for x in xs])])
     bi["list"] = B("list", lambda I, x=(): _plain(iterate(I, x)))
     bi["tuple"] = B("tuple", lambda I, x=(): tuple(_plain(iterate(I, x))))
-    bi["set"] = B("set", lambda I, x=(): set(_plain(iterate(I, x))))
+    def b_set(I, x=()):
+        items = [I.resolve(v) for v in _plain(iterate(I, x))]
+        if any(isinstance(v, Sym) for v in items):
+            raise Unsupported("set of symbolic values")
+        return set(items)
+    bi["set"] = B("set", b_set)
 
     def b_sorted(I, x, key=None, reverse=False):
         items = _plain(iterate(I, x))
@@ -1007,6 +1013,8 @@ def install_numpy(I):
     L["ndarray.sum"] = lambda I, self: _reduce_sum(I, self)
 
     def np_any(I, a):
+        if isinstance(a, SArray) and isinstance(a.length, int):
+            return _any(I, [a.at(z3.IntVal(i)) for i in range(a.length)])
         if isinstance(a, SArray):
             k = z3.Int(fresh("any"))
             n = a.len_term()
@@ -1018,6 +1026,8 @@ def install_numpy(I):
     L["numpy.any"] = np_any
 
     def np_all(I, a):
+        if isinstance(a, SArray) and isinstance(a.length, int):
+            return _all(I, [a.at(z3.IntVal(i)) for i in range(a.length)])
         if isinstance(a, SArray):
             k = z3.Int(fresh("all"))
             n = a.len_term()
